@@ -28,12 +28,12 @@ if os.environ.get('VERIF_C20_FIXES') is not None:
     FIXES = [x for x in os.environ['VERIF_C20_FIXES'].replace(' ', '').split(',') if x]
 
 ALL_DEVIATIONS = ['D20a', 'D20b', 'D20c', 'D20d']
-INVARIANTS = ['Faithful', 'ExactlyOnce', 'ActionOnce']
+INVARIANTS = ['Faithful', 'ExactlyOnce', 'ActionOnce', 'FilteredIsSilent']
 PROPERTIES = ['Stable']
 
 
-def scn(fam, kind='-', d=0, co=False):
-    return {'fam': fam, 'kind': kind, 'd': d, 'co': co}
+def scn(fam, kind='-', d=0, co=False, flt=False, kw=False):
+    return {'fam': fam, 'kind': kind, 'd': d, 'co': co, 'flt': flt, 'kw': kw}
 
 
 def scenarios(depth, chain_depth=None):
@@ -49,6 +49,7 @@ def scenarios(depth, chain_depth=None):
     out += [scn('CONV', 'ret', 0, True), scn('CONV', 'raise', 0, True)] + [scn('CONV', 'await', d, True) for d in range(1, depth + 1)]
     out += [scn('RPC', 'ret'), scn('RPC', 'raise')] + [scn('RPC', 'await', d) for d in range(1, cd + 1)]
     out += [scn('ACT', 'ret'), scn('ACT', 'raise')]
+    out += [scn('BCF', k, 0, False, flt=f, kw=w) for k in ('ret', 'raise') for f in (False, True) for w in (False, True)]
     return out
 
 
